@@ -406,6 +406,7 @@ impl<'a, T: Elem> BackendVisitor<T> for Vis<'a> {
                     self.one::<V, T, Vec<i32>, i32>(name, "Vec", v, d, w, Path::Buf);
                     self.one::<V, T, VecDeque<i32>, i32>(name, "VecDeque", v, d, w, Path::Buf);
                     self.one::<V, T, ndarray::Array1<i32>, i32>(name, "Array1", v, d, w, Path::Buf);
+                    self.one::<V, T, Int32Chunked, Option<i32>>(name, "Int32Chunked", v, d, w, Path::Buf);
                     continue;
                 }
                 for path in [Path::Ret, Path::Buf] {
@@ -413,8 +414,9 @@ impl<'a, T: Elem> BackendVisitor<T> for Vis<'a> {
                     self.one::<V, T, VecDeque<i32>, i32>(name, "VecDeque", v, d, w, path);
                     self.one::<V, T, ndarray::Array1<i32>, i32>(name, "Array1", v, d, w, path);
                 }
-                // Polars output: returned path only (no uset, DESIGN 5.8)
+                // Polars output: the container stages slot-wise results in a plain buffer (fix 833cd1d)
                 self.one::<V, T, Int32Chunked, Option<i32>>(name, "Int32Chunked", v, d, w, Path::Ret);
+                self.one::<V, T, Int32Chunked, Option<i32>>(name, "Int32Chunked", v, d, w, Path::Buf);
             }
         }
     }
@@ -451,11 +453,10 @@ fn main() {
         rule: "protocol machine (driver x input back end x output container x out-path x len x w): the stateful callback records (call#, arguments); the recorded trace must conform event by event to the explicit model: len calls, position i gets the new element(s) at i, the element/index at i-w+1 when i>=w-1, 'nothing' when i<min(w,len)-1, unconstrained when w>len and i=len-1; slice forms get exactly x[max(0,i-w+1)..=i]; out[i] = result of call i. Elements 10+i / 100+i are distinct so identity is observable. Non-trivial = distinct (driver, back end, output, path, len, w) runs.".into(),
         bounds: json!({"len": format!("0..={max_len}"), "w": "1..=len+3", "drivers": DRIVERS.iter().map(|d| format!("{d:?}")).collect::<Vec<_>>(),
             "input_backends": "Vec, Arc<Vec>, [T;N], VecDeque x 8 head offsets, Array1, ArrayView1 steps {1,2,3,-1,-2}, ArrayViewMut1, Arc<Array1> (elements i32 and Option<f64>), OptIter<Vec<f64>>, OptIter<Array1<f64>>, Float64Chunked/&Float64Chunked under every chunking into <=3 chunks",
-            "outputs": "Vec, VecDeque, Array1 (returned and caller buffer), Int32Chunked (returned)"}),
+            "outputs": "Vec, VecDeque, Array1, Int32Chunked (returned and caller buffer)"}),
         assumptions: vec![
             "window 0 belongs to C10".into(),
             "second series is a Vec<i32> of the same length".into(),
-            "(Polars output, caller buffer) does not exist (DESIGN 5.8)".into(),
         ],
         exhaustive: true,
         min_states: 1000,
